@@ -47,6 +47,7 @@ type response struct {
 	Stack    string   `json:"stack,omitempty"`
 	Out      []byte   `json:"out"`
 	OutMiss  bool     `json:"outmiss,omitempty"`
+	OutSize  int64    `json:"outsize,omitempty"` // set when the image was too large to ship (Out holds its first 4 KiB)
 	Log      []string `json:"log,omitempty"`
 	Stdout   string   `json:"stdout,omitempty"`
 	Steps    uint64   `json:"steps,omitempty"`
@@ -95,7 +96,17 @@ func run(req request) (r response) {
 			r.Stdout = string(b)
 		}
 		if r.Executed {
-			if b, err := os.ReadFile(outPath); err == nil {
+			if st, err := os.Stat(outPath); err == nil && st.Size() > 64<<20 {
+				// a huge image is not shipped back: only its size and head are reported
+				r.OutSize = st.Size()
+				if f, e := os.Open(outPath); e == nil {
+					head := make([]byte, 4096)
+					n, _ := f.Read(head)
+					r.Out = head[:n]
+					f.Close()
+				}
+				os.Remove(outPath)
+			} else if b, err := os.ReadFile(outPath); err == nil {
 				r.Out = b
 			} else {
 				r.OutMiss = true
